@@ -39,7 +39,18 @@ func VerifRouteMatch() {
 	t := &routetable{m: make(map[string]*Route)}
 	var ref []verifEntry
 	urls := []string{"rtsp://h/x", "rtsp://h/x/"}
+	// EARLY=1: the request path is also looked up once earlier in the history (after the
+	// first save), so that anything a lookup leaves behind must not outlive later edits
+	early := symapi.Param("EARLY", 0) == 1
+	var q string
+	if early {
+		q = verifStr("q", 1, LQ, "ab/")
+		urls = []string{"rtsp://h/x", "rtsp://h/y/"}
+	}
 	for i := 0; i < K; i++ {
+		if early && i == 1 {
+			t.Match(q)
+		}
 		p := verifStr("p"+string(rune('0'+i)), 1, LP, "ab/")
 		u := urls[symapi.Choose("u"+string(rune('0'+i)), 2)]
 		symapi.Assert(t.Save(&Route{Pattern: p, URL: u}) == nil, "save-ok")
@@ -80,7 +91,9 @@ func VerifRouteMatch() {
 		before = append(before, snap{r, r.Pattern, r.URL})
 	}
 
-	q := verifStr("q", 1, LQ, "ab/")
+	if !early {
+		q = verifStr("q", 1, LQ, "ab/")
+	}
 	got := t.Match(q)
 	cq := utils.CanonicalPath(q)
 
